@@ -1,6 +1,6 @@
 """C17: strided/offset/broadcast base-field wrappers and bulk copies move the right data."""
 import re
-from .. import front, contracts, harness
+from .. import front, contracts, harness, wrapcheck
 from ..interp import Incomplete, Sink
 from ..ir import IRError
 from ..specs import base_spec
@@ -11,97 +11,16 @@ PAT = r'^Goldilocks::(copy|add|sub|mul)_(avx512|avx|batch)\('
 FLOORS = {'avx2': 109, 'avx512': 160}    # overloads present on the pinned tree (counted by this check)
 
 
-def site_of(mod, name):
-    f, l = mod.fn_loc(name)
-    return '%s:%s' % (front.rel(f), l)
-
-
-def alias_sets(params):
-    """aliasing hypotheses the signature permits: contiguous Element arrays / registers of equal kind"""
-    ps = [p for p in params if not p.is_this]
-    names = [p.name for p in ps]
-    if any(n.startswith('offset') or n.startswith('stride') for n in names):
-        return []
-    out = ps[0]
-    ins = [p for p in ps[1:] if p.irty[0] == 'p']
-    same = lambda p, q: p.dty.replace(' const', '').replace('&', '*') == q.dty.replace(' const', '').replace('&', '*')
-    hs = []
-    for p in ins:
-        if same(out, p):
-            hs.append({p.name: out.name})
-    if len(ins) == 2 and same(ins[0], ins[1]):
-        hs.append({ins[1].name: ins[0].name})
-        if same(out, ins[0]):
-            hs.append({ins[0].name: out.name, ins[1].name: out.name})
-    return hs
-
-
-def check_overload(rep, mod, cfg, name, alias=None):
-    dem = mod.dem[name]
-    tag = '%s/%s%s' % (cfg, dem, '' if not alias else ' alias=' + ','.join('%s=%s' % kv for kv in sorted(alias.items())))
-    site = site_of(mod, name)
-    ctx = contracts.Ctx()
-    summ, _ = contracts.wrapper_summaries(mod, ctx)
-    summ.pop(name, None)       # the routine under analysis is interpreted, not summarised
-    try:
-        eff = harness.run_routine(mod, name, summ, alias=alias)
-    except (Incomplete, IRError) as e:
-        rep.incomplete('value:' + tag, 'wrapper-value', site, str(e))
-        return
-    except Sink as e:
-        rep.refute('safety:' + tag, 'wrapper-safety', '%s:%s' % (front.rel(e.loc[0]), e.loc[1]) if e.loc and e.loc[0] else site,
-                   '%s (in %s)' % (e, ' <- '.join(e.stack[:3])))
-        return
-    try:
-        exp_w, exp_r, desc = base_spec.spec(dem, eff.params)
-    except base_spec.NoSpec as e:
-        rep.incomplete('value:' + tag, 'wrapper-value', site, 'signature outside the grammar: %s' % e)
-        return
-    got = {}
-    for k, v in eff.writes.items():
-        if isinstance(v, int):
-            v = FV.const(v)
-        if not isinstance(v, FV):
-            rep.incomplete('value:' + tag, 'wrapper-value', site, 'non-field value %r written to %s' % (v, k))
-            return
-        got[k] = v.nf
-    bad = []
-    for k in sorted(set(got) | set(exp_w), key=str):
-        g, e = got.get(k), exp_w.get(k)
-        if g is None:
-            bad.append('designated output cell %s+%s is not written' % k)
-        elif e is None:
-            bad.append('cell %s+%s is written but not designated (value %s)' % (k[0], k[1], g))
-        elif g != e:
-            bad.append('cell %s+%s holds %s, specification %s' % (k[0], k[1], g, e))
-    if bad:
-        rep.refute('value:' + tag, 'wrapper-value', site, '; '.join(bad[:3]) + (' (+%d more)' % (len(bad) - 3) if len(bad) > 3 else ''))
-    else:
-        rep.ok('value:' + tag, 'wrapper-value', site, desc)
-    extra = sorted((k for k in eff.reads if k not in exp_r and k not in exp_w), key=str)
-    if extra:
-        rep.refute('reads:' + tag, 'wrapper-footprint', site, 'reads outside the designated cells: %s' % extra[:4])
-    else:
-        rep.ok('reads:' + tag, 'wrapper-footprint', site, '%d cells read' % len(eff.reads))
-    if ctx.violations:
-        v = ctx.violations[0]
-        rep.refute('pre:' + tag, 'callsite-precondition', site, '%s operand %s lane %d: %s' % (v['callee'], v['operand'], v['lane'], v['detail']))
-    else:
-        rep.ok('pre:' + tag, 'callsite-precondition', site, '%d kernel call sites' % len(ctx.sites))
-    if not alias:
-        rep.sample(dict(config=cfg, function=dem, site=site, spec=desc,
-                        cell=str(sorted(exp_w, key=str)[0]), value=str(exp_w[sorted(exp_w, key=str)[0]])))
-    for a in eff.interp.assumptions:
-        if a not in rep.assumptions:
-            rep.assumptions.append(a)
+def specfn(dem, params):
+    w, r, d = base_spec.spec(dem, params)
+    return w, r, None, d
 
 
 def run(rep, tier, seed):
     rep.rule_text = ('every Goldilocks::{copy,add,sub,mul}_{batch,avx,avx512} overload is interpreted abstractly on symbolic operands, '
                      'strides and index arrays (kernels replaced by their contracts); every written cell must equal the value the '
                      'signature-derived specification designates, the write set must be exactly the designated cells, reads must stay '
-                     'inside the designated cells, and every kernel precondition must hold at its call site; repeated under each '
-                     'aliasing hypothesis of the unit-stride overloads')
+                     'inside the designated cells, and every kernel precondition must hold at its call site')
     nfun = 0
     for cfg in ('avx2', 'avx512'):
         mod = front.module(cfg)
@@ -111,13 +30,7 @@ def run(rep, tier, seed):
         rep.floor('overloads[%s]' % cfg, len(names), FLOORS[cfg])
         for n in names:
             nfun += 1
-            check_overload(rep, mod, cfg, n)
-            try:
-                ps = harness.describe(mod, n)
-            except Incomplete:
-                continue
-            for al in alias_sets(ps):
-                check_overload(rep, mod, cfg, n, al)
+            wrapcheck.check_overload(rep, mod, cfg, n, specfn)
     rep.cov['functions_analysed'] = nfun
     rep.cov['configs'] = ['avx2', 'avx512']
     rep.trusted = ['clang 14 front end and -O0 lowering of the wrappers', 'glv abstract interpreter (IR subset semantics)',
